@@ -6,6 +6,7 @@
 AllocCtl g_alloc;
 __thread Rng *g_rand_stream = nullptr;
 __thread int g_arch_cap = -1;
+__thread int g_arch_force = -1;
 __thread const char *g_ctx = "";
 __thread bool g_in_run = false;
 #ifdef OPSIM_MEMTRACE
@@ -84,6 +85,7 @@ extern "C" int __real_opus_select_arch(void);
 extern "C" int __wrap_opus_select_arch(void) {
   int a = __real_opus_select_arch();
   g_arch_calls++;
+  if (g_arch_force >= 0) { static int host = -1; if (host < 0) host = host_arch(); return g_arch_force < host ? g_arch_force : host; }
   if (g_arch_cap >= 0 && a > g_arch_cap) a = g_arch_cap;
   return a;
 }
